@@ -52,8 +52,12 @@ def check(prop, tier, seed):
     mod = importlib.import_module('bvlib.props.' + modname)
     broken = []          # obligations / ties that no longer check (not yet a violation by themselves)
     # 1. source-derived tables
-    for name, err in src2v.regenerate(gens):
-        broken.append(dict(kind='translator', what='gen/%s.v: %s' % (name, err)))
+    # all tables are regenerated (the extraction needs every model file, and a table left over from
+    # a run on a different tree must not survive); only a failure of this property's own tables is
+    # reported as a translator failure, another one shows up as a model that does not build
+    for name, err in src2v.regenerate(sorted(src2v.GENERATORS)):
+        if name in gens:
+            broken.append(dict(kind='translator', what='gen/%s.v: %s' % (name, err)))
     # 2. Coq cone of the property, fresh compile of the property file
     b = core.build_property(pfile)
     if not b['ok']:
